@@ -1,35 +1,13 @@
 (* C10 / C19 / C05 for GroupBCD: facts about the REGENERATED block coordinate descent epoch (Gen/KernBCD.v, translated from
    skglm/solvers/group_bcd.py on every run):
    - the sparse epoch computes, step for step, what the dense epoch computes on the dense columns the CSC matrix denotes;
-   - a group with zero Lipschitz constant is left untouched, whatever its gradient;
    - the stacked working-set gradient of the sparse kernel equals the dense one. *)
 From Coq Require Import Reals Lra Lia ZArith List Bool.
 Require Import SK.Base.Res SK.Base.Num SK.Base.RInst SK.Lemmas.VecFacts SK.Lemmas.Loops SK.Lemmas.Csc SK.Lemmas.Consistency
-               SK.Lemmas.SparseEpoch.
+               SK.Lemmas.SparseEpoch SK.Lemmas.BcdBase.
 Require Import SK.Gen.KernBCD.
 Import ListNotations.
 Local Open Scope R_scope.
-
-Lemma for_enum_from_ext_inv {S} (Inv : S -> Prop) (b1 b2 : Z -> Z -> S -> res S) ws : forall idx s0,
-  Inv s0 -> (forall i j s, In j ws -> Inv s -> b1 i j s = b2 i j s) ->
-  (forall i j s s', In j ws -> Inv s -> b2 i j s = Ok s' -> Inv s') ->
-  for_enum_from idx ws b1 s0 = for_enum_from idx ws b2 s0.
-Proof.
-  induction ws as [|j ws IH]; intros idx s0 H0 He Hp; simpl; [reflexivity|].
-  rewrite (He idx j s0 (or_introl eq_refl) H0). destruct (b2 idx j s0) as [s1|e] eqn:E; cbn [bind]; [|reflexivity].
-  apply IH; [eapply Hp; eauto; left; reflexivity| |]; intros; [apply He|eapply Hp]; eauto; right; assumption.
-Qed.
-
-Lemma in_slice {A} (l s : list A) lo hi x : slice l lo hi = Ok s -> In x s -> In x l.
-Proof.
-  unfold slice. destruct (_ && _ && _)%bool; [|discriminate]. intros E Hin. inversion E; subst s.
-  assert (H1 : forall k (l : list A) x, In x (firstn k l) -> In x l).
-  { intros k. induction k; intros l0 x0 Hx; simpl in Hx; [contradiction|]. destruct l0; simpl in Hx; [contradiction|].
-    destruct Hx as [->|Hx]; [left; reflexivity|right; apply IHk; exact Hx]. }
-  assert (H2 : forall k (l : list A) x, In x (skipn k l) -> In x l).
-  { intros k. induction k; intros l0 x0 Hx; simpl in Hx; [exact Hx|]. destruct l0; simpl in Hx; [contradiction|]. right. apply IHk. exact Hx. }
-  eapply H2. eapply H1. exact Hin.
-Qed.
 
 Section Epochs.
 Variable prox_1group : list R -> R -> Z -> res (list R).
@@ -104,33 +82,6 @@ Proof.
     eapply IH; [| |exact Hloop].
     + intros idx j' Xa Xb Hj'. apply Hbody. right. exact Hj'.
     + eapply Hbody; [left; reflexivity|exact HXs|exact E].
-Qed.
-
-(* a group whose Lipschitz constant is zero (an all-zero block of columns) is skipped: the epoch restricted to such groups
-   returns its input, whatever the gradient accessor answers (it is not even called) *)
-Theorem bcd_epoch_zero_lipschitz_untouched ws w Xw :
-  Forall (fun g => get_idx lip g = Ok 0) ws ->
-  Forall (fun g => exists a b s old, get_idx grp_ptr g = Ok a /\ get_idx grp_ptr (g + 1) = Ok b /\ slice grp_indices a b = Ok s
-                                 /\ gather w s = Ok old) ws ->
-  @_bcd_epoch R _ grp_ptr grp_indices gg_dense prox_1group X y w Xw lip ws = Ok (w, Xw).
-Proof.
-  intros Hz Hok. unfold _bcd_epoch.
-  assert (H : for_each ws (fun g '(w, Xw) =>
-     bind (get_idx grp_ptr g) (fun t1 => bind (get_idx grp_ptr (g + 1)) (fun t2 => bind (slice grp_indices t1 t2) (fun t3 =>
-     bind (gather w t3) (fun t4 => bind (get_idx lip g) (fun t5 =>
-     if feqb t5 (fofZ 0) then ret (w, Xw) else
-     bind (gg_dense X y w Xw g) (fun t6 => bind (vdivs t6 t5) (fun t7 => bind (fdiv (fofZ 1) t5) (fun t8 =>
-     bind (prox_1group (vmap2 fsub t4 t7) t8 g) (fun t9 => bind (scatter w t3 t9) (fun w =>
-     bind (for_enum t3 (fun idx j Xw => bind (get_idx t4 idx) (fun t10 => bind (get_idx w j) (fun t11 =>
-       if negb (feqb t10 t11) then bind (get_idx w j) (fun t12 => bind (get_idx t4 idx) (fun t13 => bind (mcol X j) (fun t14 =>
-         ret (vmap2 fadd Xw (vmap (fun e__ => fmul (fsub t12 t13) e__) t14))))) else ret Xw))) Xw) (fun Xw => ret (w, Xw))))))))))))) (w, Xw)
-     = Ok (w, Xw)).
-  { induction ws as [|g ws IH]; [reflexivity|]. inversion Hz as [|? ? Hg Hz']; subst. inversion Hok as [|? ? Hg2 Hok']; subst.
-    cbn [for_each]. destruct Hg2 as (a & b & s & old & H1 & H2 & H3 & H4).
-    rewrite H1. cbn [bind]. rewrite H2. cbn [bind]. rewrite H3. cbn [bind]. rewrite H4. cbn [bind]. rewrite Hg. cbn [bind].
-    cbn [feqb fofZ RNum]. unfold Reqb. destruct (Req_EM_T 0 (IZR 0)) as [_|ne]; [|exfalso; apply ne; reflexivity].
-    unfold ret. cbn [bind]. apply IH; assumption. }
-  unfold ret in *. rewrite H. reflexivity.
 Qed.
 
 (* the stacked working-set gradient: sparse kernel = dense kernel *)
